@@ -568,7 +568,17 @@ class Body:
         pr = p['p']
         at = p.get('@')
         if pr[0] == '*':
-            return None             # through a reference: the referent is what matters (deref_origin), not the pointer's history
+            # through a reference: only `&local` of a local aggregate is looked through (`(*r).f` with `r = &frame` is `frame.f`); references
+            # into self / arguments keep their place (deref_origin describes those)
+            sd0 = self.single_def_at(p['l'], at, p.get('@i'))
+            if sd0 and sd0[2] == 'assign':
+                rv0 = sd0[3]['rv']
+                if rv0['k'] == 'use' and op_place(rv0['op']) is not None and not op_place(rv0['op']).get('p') and not (1 <= op_place(rv0['op'])['l'] <= self.arg_count):
+                    q0 = op_place(rv0['op'])
+                    return {'l': q0['l'], 'p': list(pr), 's': q0.get('s', '') + '~', 'ty': '', '@': sd0[0], '@i': sd0[1] if isinstance(sd0[1], int) else (1 << 30)}
+                if rv0['k'] == 'ref' and not rv0['place'].get('p') and len(pr) > 1 and not (1 <= rv0['place']['l'] <= self.arg_count):
+                    return {'l': rv0['place']['l'], 'p': list(pr[1:]), 's': rv0['place'].get('s', '') + '~', 'ty': '', '@': sd0[0], '@i': sd0[1] if isinstance(sd0[1], int) else (1 << 30)}
+            return None
         sd = self.single_def_at(p['l'], at, p.get('@i'))
         if sd is None:
             return None
